@@ -173,6 +173,24 @@ def run(facts, res):
             if not ok:
                 res.violation("Q2", "stage_full_snapshot|not-at-winner", "stage_full_snapshot does not snapshot the view at the current winner", sf.loc())
 
+        # Q2c: a snapshot never re-asserts an array whose winner is a deletion: every staging call of stage_full_snapshot is dominated
+        # by `!winner.is_deleted()` on the revision obtained from get_winner (a live but losing leaf that is still an edit script must
+        # not bring a deleted array back)
+        if sf is not None:
+            from ..common import inlined_sites as _is12
+            n2c = 0
+            for s_ in _is12(facts, sf, lambda t: t.callee is not None and t.callee.name in ("write_object", "add", "update_object", "create_object") and
+                            t.callee.target() not in (recon,)):
+                n2c += 1
+                ok = any(l.kind == "call" and callee_name(l.term) == "is_deleted" and l.truth is False and l.term[2] and contains_call(l.term[2][0], "get_winner")
+                         for l in s_.lits)
+                res.instance("Q2", "stage_full_snapshot: %s only when the winner is not a deletion: %s" % (s_.term.callee.name, ok), s_.loc())
+                if not ok:
+                    res.violation("Q2", "stage_full_snapshot|snapshot-over-deleted-winner",
+                                  "stage_full_snapshot can stage a full descriptor (%s) although the winning revision of the array is a deletion: the "
+                                  "array comes back to life in the view" % s_.term.callee.name, s_.loc())
+            res.floor("Q2", "staging calls of stage_full_snapshot", n2c, 1)
+
     # ------------------------------------------------------------------ Q3
     c = facts.body("melda::Melda::commit")
     if c is not None:
